@@ -102,6 +102,8 @@ def run_push_fail(params, ch):
     slow = params.get('slow')
     if slow:
         cfg['wrte_delay'] = slow[0]
+        if len(slow) > 2:
+            cfg['okay_delay_all'] = slow[2]       # every round trip is slow: the whole push takes longer than the read timeout, no single wait does
     s = Session(ch, cfg, twin=params['twin'])
     try:
         s.op(('connect',))
@@ -193,6 +195,7 @@ def parts(tier):
                     bound='<=2 cuts', min_outcomes=1))
     sc = [{'size': size, 'when': w, 'delay': d, 'reason': ri, 'twin': t, 'kmax': 2, 'slow': SLOW} for size in (100, 5000) for w in ('header', ['data', 1], 'done')
           for d in (0, 1) for ri in (1, 2) for t in twins]
+    sc += [{'size': 17000, 'when': w, 'delay': d, 'reason': 2, 'twin': t, 'kmax': 1, 'slow': (0.0, 1.0, 0.2)} for w in (['data', 6], ['data', 8], 'done') for d in (0, 1) for t in twins]
     out.append(Part('push-fail-slow-device', sc, run_push_fail, {'*': None}, what='push: the same slow device rejecting a push', bound='<=2 cuts', min_outcomes=1))
     sc = [{'op': op, 'id': sid, 'after': a, 'twin': t, 'fill': f} for op in ('pull', 'list', 'stat', 'push') for sid in IDS if sid not in VALID[op]
           for a in ((False, True) if op in ('pull', 'list') else (False,)) for t in twins for f in ((False, True) if (sid == b'STAT' and op in ('pull', 'push')) else (False,))]       # fill: a STAT record with non-zero fields (a STAT record has no payload, whatever its fields say)
